@@ -1224,6 +1224,68 @@ def stream_strings(ctx, wu, n, rng):
             ctx.disagree(kind, {'stream': kind, 'arg': arg}, rep, enc(real))
 
 
+ISO2022_CODECS = ['iso2022_jp', 'iso2022_jp_1', 'iso2022_jp_2', 'iso2022_jp_2004', 'iso2022_jp_3', 'iso2022_jp_ext', 'iso2022_kr']
+_PCT_CHARS = {}
+
+
+def pct_chars(codec):
+    """kana / kanji / hangul whose 7-bit encoding holds the byte '%' (they can spell %xy escapes in the encoded text)"""
+    if codec not in _PCT_CHARS:
+        hits = []
+        for cp in list(range(0x3041, 0x3100)) + list(range(0x4e00, 0xa000)) + list(range(0xac00, 0xd7a4)) + list(range(0xff61, 0xffa0)):
+            try:
+                b = chr(cp).encode(codec)
+            except Exception:
+                continue
+            if b'%' in b:
+                hits.append(chr(cp))
+        _PCT_CHARS[codec] = hits
+    return _PCT_CHARS[codec]
+
+
+def iso2022_cases(rng, n):
+    """ISO-2022 family: texts whose ENCODED bytes contain '%' followed by hex-digit bytes, in path / query / fragment"""
+    out = [Case('http://h/\u30e1\u30e2\u5316?\u30e1\u30e2\u5316#\u30e1\u30e2\u5316', 'http', 'iso2022_jp', 'iso2022')]
+    for _ in range(n):
+        codec = rng.choice(ISO2022_CODECS)
+        chars = pct_chars(codec)
+        if not chars:
+            continue
+        # keep texts whose encoding really spells % + two hex digits, some with a lower-case letter
+        for _try in range(6):
+            t = ''.join(rng.choice(chars) for _ in range(rng.randrange(1, 4))) + rng.choice(['', '\u5316', 'a', '\u30a2'])
+            try:
+                b = t.encode(codec)
+            except UnicodeError:
+                continue
+            if re.search(rb'%[0-9a-fA-F]{2}', b):
+                break
+        tmpl = rng.choice(['http://h/%s', 'http://h/a/%s/b?x=1', 'http://h/?q=%s', 'http://h/p?%s=1#%s', 'http://h/%s?%s'])
+        out.append(Case(tmpl.replace('%s', t), 'http', codec, 'iso2022'))
+    return out
+
+
+BRACE_LINKS = ['http://example.com/api/{id}/view#!/details', 'http://example.com/{}#!x', 'http://example.com/{0}#!', 'http://example.com/{0!r}#!a',
+               'http://example.com/{:>9}?a=1#!b', 'http://example.com/odd}path#!z', 'http://example.com/odd{path#!z', 'http://example.com/{{x}}#!y',
+               'http://example.com/?q={\"a\":1}#!s', 'https://example.com/%s#!%s', 'http://example.com/%(x)s?%(y)d#!f', 'http://example.com/p?{user}#!{frag}',
+               'http://example.com/{id}', 'http://example.com/a#!{0}', 'http://example.com/{a}{b}?{c}#!{d}', 'http://example.com/}{#!', 'ftp://example.com/{id}#!x']
+
+
+def ref_rewrite(wu, info, hash_fragment, session_id):
+    """what URLRewriter.rewrite has to give, assembled by plain concatenation (no format strings)"""
+    import wpull.urlrewrite as wr
+    if info.scheme not in ('http', 'https'):
+        return info
+    if session_id:
+        url = info.scheme + '://' + info.authority + wr.strip_path_session_id(info.path) + '?' + \
+            wr.strip_query_session_id(info.query) + '#' + info.fragment
+        info = wu.parse_url_or_log(url) or info
+    if hash_fragment and info.fragment.startswith('!'):
+        url = info.url + ('&' if info.query else '?') + '_escaped_fragment_=' + info.fragment[1:]
+        info = wu.parse_url_or_log(url) or info
+    return info
+
+
 SWEEP_CODECS = ['latin-1', 'cp1252', 'iso8859-15', 'cp1251', 'koi8-r', 'iso8859-2', 'cp1250', 'iso8859-5', 'iso8859-7', 'cp437', 'cp850',
                 'cp866', 'mac-roman', 'shift_jis', 'euc-jp', 'gbk', 'euc-kr', 'big5', 'utf-8']
 
